@@ -155,6 +155,64 @@ CHECKS = {
               "ANTLR parsers; no axioms"),
         technique="Coq proof over hand-written Gallina reader models and a Gallina reference emitter + differential correspondence",
         design="4 C09"),
+    "C01": dict(
+        text=("Theorems over the Gallina models of uvl_writer.py / uvl_reader.py, for every model of the UVL fragment [uvl_ok] "
+              "(any size; all relation kinds, group and feature cardinalities incl. *, typed features, nested attribute values, "
+              "names needing quotes, constraints over logical / comparison / arithmetic / aggregate operators): the reader applied "
+              "to the writer's syntax tree returns the normal form [uvl_norm m] with correct back pointers; the normal form keeps "
+              "the whole tree unchanged and maps each constraint to a logically equivalent one, stays in the fragment, is idempotent, "
+              "and is written as the byte-identical text (so any number of cycles changes nothing). End to end for ANY parser "
+              "function that returns the writer's syntax tree on the writer's text (explicit premise, validated on every case by "
+              "suite P-uvl against the real ANTLR parser). Bytes tied to the code by suite W-uvl, reader by suite R-uvl."),
+        note=("Coq kernel; extraction/driver; harness incl. conversion of the ANTLR parse tree; the external uvlparser/antlr4 runtime "
+              "enters only through the stated premise; float tokens carry Python's repr; no axioms"),
+        technique="Coq proof (writer/reader models over a concrete-syntax-tree type, parser as premise) + differential correspondence",
+        design="4 C01"),
+    "C02": dict(
+        text=("Theorems for all six reader models (JSON, Glencoe, FeatureIDE, FaMa XML, UVL, AFM) and EVERY document / parse tree "
+              "they accept: the returned pointer-annotated model satisfies [ptr_wf] (root parentless; every feature's parent, every "
+              "relation's parent and every attribute's owner is the node where it sits) and every constraint AST has the operands "
+              "its operator needs (UVL under the grammar-guaranteed hypothesis that no binary node carries NOT; the statement without "
+              "it is refuted in the development); FeatureIDE relations are never empty. The back pointers of the implementation's "
+              "result are dumped and compared with the reader models on every document of the reader suites; the oracle walks the "
+              "live object graph."),
+        note=("Coq kernel; extraction/driver; harness dumper of back pointers (public attributes only); external parsers as in "
+              "C01/C05-C09; only the reader suites and the graph clauses count for this check; no axioms"),
+        technique="Coq proof over pointer-annotated reader models + differential correspondence on the reader suites",
+        design="4 C02"),
+    "C04": dict(
+        text=("PARTIAL. Theorems over the UVL reader model: what is read does not depend on redundant parentheses, quoting of a "
+              "reference, whether several children share one group keyword, an explicit Boolean type, [n] vs [n..n]; the canonical "
+              "document of a model reads as that model (C01); a parser-reported syntax error becomes a library error and never a "
+              "model. Not proved: which texts the external ANTLR parser accepts/rejects and how comments, blank lines and headers "
+              "vanish in its parse tree — decided on the implementation by suite R-uvl-emitter (independent reference emitter + "
+              "oracle: model read = reference model) and suite P-uvl-invalid (one-defect documents must raise)."),
+        note=("Coq kernel; extraction/driver; harness reference emitter (its reading of the UVL language); the external parser is "
+              "sampled, not modelled; no axioms"),
+        technique="Coq proof over the reader model on parse trees + differential correspondence with a reference emitter",
+        design="4 C04"),
+    "C10": dict(
+        text=("Theorems over the Gallina models of splot_writer.py and pl_writer.py with a semantics of each target format: SPLOT — "
+              "the SXFM tree admits exactly the selections the feature tree admits (every tree, all relation kinds), the CNF clause "
+              "section is equivalent to the constraints for constraints without XOR / EQUIVALENCE (PARTIAL: for those the full "
+              "statement is refuted by a witness — open finding in the flamapy.core dependency), no feature is missing; pl — the "
+              "exported lines hold exactly for the valid configurations of the model (cardinality groups as the disjunction over "
+              "subsets; all constraints), every feature is mentioned. Bytes tied to the code by suites W-splot / W-pl; independent "
+              "interpreters of the two formats enumerate the configurations of the written files (suites S-*)."),
+        note=("Coq kernel; extraction/driver; harness interpreters of SXFM and pl (the check's reading of the formats); the Gallina "
+              "semantics of the two formats; no axioms"),
+        technique="Coq proof (semantic preservation of the export over format semantics) + differential correspondence",
+        design="4 C10"),
+    "C11": dict(
+        text=("Theorems over the Gallina model of clafer_writer.py with a semantics of the Clafer subset: the instances of the "
+              "exported hierarchy and constraints are exactly the valid configurations of the model (unique names; every relation "
+              "kind the writer maps to xor/or/mux/[a..b]/?), every logical operator is translated and means the same, safe "
+              "identifiers are injective, every attribute is declared. Bytes tied to the code by suite W-clafer; an independent "
+              "interpreter of the Clafer subset enumerates instances of the written file (suite S-clafer)."),
+        note=("Coq kernel; extraction/driver; harness interpreter of the Clafer subset (no Clafer tool is installed); the Gallina "
+              "semantics of the subset; no axioms"),
+        technique="Coq proof (semantic preservation of the export over a Clafer-subset semantics) + differential correspondence",
+        design="4 C11"),
 }
 
 NOT_YET = {
